@@ -528,3 +528,41 @@ func vh_C15_L7_failed_blocking_write_keeps_concurrent_release() {
 	a.closeWriteLoopOnce.Do(func() { close(a.closeWriteLoopCh) })
 	vcover("end")
 }
+
+// C19.L4b: Karn's rule with real retransmissions. One chunk is outstanding; optionally the
+// peer closes its window (a SACK with a_rwnd 0 that acknowledges nothing); then the chunk is
+// really sent again - after a T3 expiry (with a closed window it leaves as the zero-window
+// probe) or as the tail-loss probe - and finally acknowledged: whenever it was on the wire
+// twice its acknowledgement yields no round-trip sample; when it was sent once it does.
+func vh_C19_L4_karn_after_real_retransmission() {
+	f := vInFlight(1, false)
+	a := f.a
+	first := f.base + 1
+	next := a.myNextTSN
+	if vPick(2) == 1 {
+		vassert(vDeliver(a, &chunkSelectiveAck{cumulativeTSNAck: f.base, advertisedReceiverWindowCredit: 0}) == nil, "SACK ok")
+		vassert(a.RWND() == 0, "the peer's window is closed")
+	}
+	_ = vWriterWake(a)
+	switch vPick(3) {
+	case 1:
+		a.t3RTX.start(1000)
+		vassert(vFireRtx(a, a.t3RTX), "T3 expires")
+	case 2:
+		a.onPTOTimer()
+	}
+	onWire := 1
+	for _, raw := range vWriterWake(a) {
+		for _, c := range vDecode(raw).chunks {
+			if d, ok := c.(*chunkPayloadData); ok && d.tsn == first {
+				onWire++
+			}
+		}
+	}
+	vassert(onWire <= 2, "at most one retransmission per expiry")
+	vassert(vDeliver(a, &chunkSelectiveAck{cumulativeTSNAck: first, advertisedReceiverWindowCredit: 1 << 20}) == nil, "SACK ok")
+	sampled := a.minTSN2MeasureRTT == next
+	vassert(sampled == (onWire == 1), "a round-trip sample is taken from the acknowledgement iff the chunk was on the wire exactly once")
+	vobserve("onWire", uint64(onWire))
+	vcover("end")
+}
